@@ -70,6 +70,8 @@ func init() {
 		"(time.Duration).Seconds":          inDurSeconds,
 		"crypto/sha256.Sum256":             inSha256,
 		"(*encoding/base64.Encoding).EncodeToString": inB64,
+		"(*bytes.Buffer).WriteString":      inBufWriteString,
+		"(*bytes.Buffer).String":           inBufString,
 		"(*sync.Mutex).Lock":               inMutexLock,
 		"(*sync.Mutex).Unlock":             inMutexUnlock,
 		"(*sync.WaitGroup).Add":            inWGAdd,
@@ -919,6 +921,44 @@ func inB64(fr *frame, args []value) value {
 		}
 	}
 	panic(engineErr("base64 of bytes that are not a digest handle"))
+}
+
+// ---------------------------------------------------------------------
+// bytes.Buffer used as a string builder: the accumulated text is kept as one
+// (possibly symbolic) string in the buf field.
+
+func bufText(p *value) value {
+	s := (*p).(structure)
+	if l, ok := s[0].([]value); ok && len(l) == 1 {
+		return l[0]
+	}
+	return ""
+}
+
+func inBufWriteString(fr *frame, args []value) value {
+	p := derefPtr(args[0], "Buffer.WriteString")
+	s := (*p).(structure)
+	s[0] = []value{strConcat(bufText(p), args[1])}
+	n := callBuiltinLen(args[1])
+	return tuple{n, iface{}}
+}
+
+func callBuiltinLen(v value) value {
+	switch x := v.(type) {
+	case string:
+		return len(x)
+	case *sym:
+		return symLen(x)
+	}
+	return 0
+}
+
+func inBufString(fr *frame, args []value) value {
+	p, _ := args[0].(*value)
+	if p == nil {
+		return "<nil>"
+	}
+	return bufText(p)
 }
 
 // ---------------------------------------------------------------------
